@@ -428,3 +428,45 @@ func H06c_twin() {
 		}
 	}
 }
+
+// H06d: the very first transaction. On an empty DAG a root is offered with a payload that does not hash to the
+// declared hash (refused), then the same root with the right payload (admitted), then the node restarts: after
+// the refusal nothing is stored and every digest is that of the empty set; after the admission and after the
+// restart digests, listing, head and counters are those of the one-transaction DAG.
+func H06d() {
+	kv := newHKV()
+	ctx := context.Background()
+	leafSize := uint32(2)
+	s := hNewState(kv, leafSize, func(Transaction) bool { return true })
+	p := []byte{7}
+	root := hNewTx(vRef(1), 0, hash.SHA256Sum(p), nil)
+	before := kv.snapshot()
+	err := s.Add(ctx, root, []byte{8})
+	present, _ := s.IsPresent(ctx, root.ref)
+	vAssert(err != nil && !present, "H06d.substitute_refused: a root offered with a payload that does not hash to the declared hash was admitted")
+	vAssert(hKVSameState(before, kv.snapshot()), "H06d.reject_leaves_no_trace: refused root changed storage")
+	// the empty set: zero digests at clock 0, nothing listed, no head
+	x, c := s.XOR(uint32(vRange(0, 5)))
+	vAssert(x == hash.SHA256Hash{} && c == 0, "H06d.afterreject.xor_matches_set: after a refused root the XOR digest is not that of the empty set")
+	ib, _ := s.IBLT(0)
+	vAssert(ib.Empty(), "H06d.afterreject.iblt_matches_set: after a refused root the IBLT is not empty")
+	list, lerr := s.FindBetweenLC(ctx, 0, 10)
+	vAssert(lerr == nil && len(list) == 0, "H06d.afterreject.listing_complete: after a refused root a transaction is listed")
+	head, herr := s.Head(ctx)
+	vAssert(herr == nil && head == hash.SHA256Hash{}, "H06d.afterreject.head: after a refused root there is a head")
+	vAssert(s.Add(ctx, root, p) == nil, "H06d.valid_root_admitted: valid root refused after an earlier refused attempt")
+	hCheckDerived("H06d.after", s, kv, []*transaction{root}, leafSize)
+	s2 := hNewState(kv, leafSize, func(Transaction) bool { return true })
+	s2.loadState(ctx)
+	hCheckDerived("H06d.restart", s2, kv, []*transaction{root}, leafSize)
+	vCover("done")
+}
+
+func H06d_twin() {
+	kv := newHKV()
+	s := hNewState(kv, 2, func(Transaction) bool { return true })
+	root := hNewTx(vRef(1), 0, hash.SHA256Sum([]byte{7}), nil)
+	if s.Add(context.Background(), root, []byte{byte(7 + vChoice(2))}) != nil {
+		vAssert(false, "H06d_twin.reach: reachable")
+	}
+}
